@@ -185,11 +185,103 @@ theorem readObject_succ_cases (ber : Bytes) (off d : Nat) :
                   exact ⟨by omega, by omega, _, _, h1.symm⟩
                 · intro f'; rw [readObject]; simp only [hb, ht, hl, hlen, hce, hc, if_true, if_false, not_false_eq_true, and_true, Bool.false_eq_true]
 
+/-- one iteration of the `readItems` loop with the two recursive calls abstracted -/
+def itemsK (O : Nat → Except Err (Obj × Nat)) (I : Nat → Except Err (List Obj × Nat))
+    (ber : Bytes) (offset contentEnd : Nat) (indefinite : Bool) : Except Err (List Obj × Nat) :=
+  if indefinite then
+    if ber.length - offset < 2 then .error .invalid
+    else if ber.getD offset 1 = 0 ∧ ber.getD (offset + 1) 1 = 0 then .ok ([], offset)
+    else
+      match O offset with
+      | .error e => .error e
+      | .ok (o, off') =>
+        match I off' with
+        | .error e => .error e
+        | .ok (os, off'') => .ok (o :: os, off'')
+  else if ¬ (offset < contentEnd) then .ok ([], offset)
+  else
+    match O offset with
+    | .error e => .error e
+    | .ok (o, off') =>
+      if off' > contentEnd then .error .beyondParent
+      else
+        match I off' with
+        | .error e => .error e
+        | .ok (os, off'') => .ok (o :: os, off'')
+
+/-- one unfolding of `readItems` -/
+theorem readItems_succ (f : Nat) (ber : Bytes) (off ce : Nat) (ind : Bool) (d : Nat) :
+    readItems (f + 1) ber off ce ind d
+      = itemsK (fun o => readObject f ber o d) (fun o => readItems f ber o ce ind d) ber off ce ind := by
+  rw [readItems]; rfl
+
+/-- Inversion of one successful iteration of the item loop: either the loop stops here with no (further)
+    member — in the indefinite case because the two end-of-contents octets `00 00` are at `off` (inside the
+    input), in the definite case because `off` reached `contentEnd` — or one member is read at `off`, ends at
+    `e1` (inside the parent in the definite case), and the loop continues at `e1`. -/
+theorem readItems_ok_cases {f : Nat} {ber : Bytes} {off ce : Nat} {ind : Bool} {d : Nat} {os : List Obj} {e : Nat}
+    (h : readItems (f + 1) ber off ce ind d = .ok (os, e)) :
+    (os = [] ∧ e = off ∧
+        (ind = true → off + 2 ≤ ber.length ∧ ber.getD off 1 = 0 ∧ ber.getD (off + 1) 1 = 0) ∧
+        (ind = false → ¬ off < ce)) ∨
+    (∃ o e1 os1, readObject f ber off d = .ok (o, e1) ∧ readItems f ber e1 ce ind d = .ok (os1, e) ∧
+        os = o :: os1 ∧ (ind = false → off < ce ∧ e1 ≤ ce) ∧
+        (ind = true → off + 2 ≤ ber.length ∧ ¬ (ber.getD off 1 = 0 ∧ ber.getD (off + 1) 1 = 0))) := by
+  rw [readItems_succ] at h
+  unfold itemsK at h
+  cases ind with
+  | true =>
+    simp only [if_true] at h
+    split at h
+    · simp at h
+    · rename_i h1
+      split at h
+      · rename_i h2
+        injection h with h; injection h with ha hb
+        exact Or.inl ⟨ha.symm, hb.symm, fun _ => ⟨by omega, h2⟩, fun hh => by simp at hh⟩
+      · rename_i h2
+        cases ho : readObject f ber off d with
+        | error e => rw [ho] at h; simp at h
+        | ok r =>
+          obtain ⟨o, e1⟩ := r
+          rw [ho] at h
+          dsimp only at h
+          cases hi : readItems f ber e1 ce true d with
+          | error e => rw [hi] at h; simp at h
+          | ok r =>
+            obtain ⟨os1, e2⟩ := r
+            rw [hi] at h
+            injection h with h; injection h with ha hb
+            exact Or.inr ⟨o, e1, os1, rfl, hb ▸ hi, ha.symm, fun hh => by simp at hh, fun _ => ⟨by omega, h2⟩⟩
+  | false =>
+    simp only [Bool.false_eq_true, if_false] at h
+    split at h
+    · rename_i h1
+      injection h with h; injection h with ha hb
+      exact Or.inl ⟨ha.symm, hb.symm, fun hh => by simp at hh, fun _ => h1⟩
+    · rename_i h1
+      cases ho : readObject f ber off d with
+      | error e => rw [ho] at h; simp at h
+      | ok r =>
+        obtain ⟨o, e1⟩ := r
+        rw [ho] at h
+        dsimp only at h
+        split at h
+        · simp at h
+        · rename_i h2
+          cases hi : readItems f ber e1 ce false d with
+          | error e => rw [hi] at h; simp at h
+          | ok r =>
+            obtain ⟨os1, e2⟩ := r
+            rw [hi] at h
+            injection h with h; injection h with ha hb
+            exact Or.inr ⟨o, e1, os1, rfl, hb ▸ hi, ha.symm, fun _ => ⟨by omega, by omega⟩, fun hh => by simp at hh⟩
+
 /-- progress of `readObject` and of the item loop, proved together by induction on the fuel -/
 theorem progress_all (ber : Bytes) : ∀ f : Nat,
     (∀ off d o e, readObject f ber off d = .ok (o, e) → off + 2 ≤ e ∧ e ≤ ber.length) ∧
     (∀ off ce ind d os e, readItems f ber off ce ind d = .ok (os, e) →
-        off ≤ e ∧ (ind = true → off + 2 ≤ e ∧ e + 2 ≤ ber.length) ∧
+        off ≤ e ∧ (ind = true → e + 2 ≤ ber.length) ∧
         (ind = false → off ≤ ber.length → e ≤ ber.length)) := by
   intro f
   induction f with
@@ -216,48 +308,12 @@ theorem progress_all (ber : Bytes) : ∀ f : Nat,
           | true => simp at h; have := this.2.1 rfl; omega
           | false => simp at h; omega
     · intro off ce ind d os e h
-      rw [readItems] at h
-      split at h
-      next hn =>
-        injection h with h; injection h with _ h; subst h
-        refine ⟨Nat.le_refl _, ?_, fun _ h => h⟩
-        intro hind; exact absurd (Or.inr hind) hn
-      next hn =>
-        cases ho : readObject f ber off d with
-        | error e => rw [ho] at h; simp at h
-        | ok r =>
-          obtain ⟨o, e1⟩ := r
-          rw [ho] at h
-          have hO := ihO _ _ _ _ ho
-          dsimp only at h
-          cases ind with
-          | true =>
-            simp only [if_true] at h
-            split at h
-            · simp at h
-            · split at h
-              · injection h with h; injection h with _ h; subst h
-                refine ⟨by omega, fun _ => by omega, fun h => by simp at h⟩
-              · cases hi : readItems f ber e1 ce true d with
-                | error e => rw [hi] at h; simp at h
-                | ok r =>
-                  obtain ⟨os1, e2⟩ := r
-                  rw [hi] at h
-                  injection h with h; injection h with _ h; subst h
-                  have hI := (ihI _ _ _ _ _ _ hi).2.1 rfl
-                  refine ⟨by omega, fun _ => by omega, fun h => by simp at h⟩
-          | false =>
-            simp only [Bool.false_eq_true, if_false] at h
-            split at h
-            · simp at h
-            · cases hi : readItems f ber e1 ce false d with
-              | error e => rw [hi] at h; simp at h
-              | ok r =>
-                obtain ⟨os1, e2⟩ := r
-                rw [hi] at h
-                injection h with h; injection h with _ h; subst h
-                have hI := ihI _ _ _ _ _ _ hi
-                refine ⟨by omega, fun h => by simp at h, fun _ _ => hI.2.2 rfl (by omega)⟩
+      rcases readItems_ok_cases h with ⟨_, he, hT, _⟩ | ⟨o, e1, os1, ho, hi, _, hF, _⟩
+      · subst he
+        exact ⟨Nat.le_refl _, fun hind => by have := hT hind; omega, fun _ h => h⟩
+      · have hO := ihO _ _ _ _ ho
+        have hI := ihI _ _ _ _ _ _ hi
+        exact ⟨by omega, hI.2.1, fun hind _ => hI.2.2 hind (by omega)⟩
 
 /-- `finish` only passes errors through -/
 theorem finish_error {tag : Bytes} {ce : Nat} {ind : Bool} {x : Except Err (List Obj × Nat)} {e : Err}
@@ -283,10 +339,18 @@ theorem fuel_all (ber : Bytes) : ∀ f : Nat,
         intro h
         exact ihI o2 ce ind (d + 1) (by omega) (finish_error h)
     · intro off ce ind d hf
-      rw [readItems]
-      split
-      · simp
-      · have hO := ihO off d (by omega)
+      rw [readItems_succ]
+      unfold itemsK
+      have hO := ihO off d (by omega)
+      have key : ∀ (P : Nat → Prop) [DecidablePred P],
+          (match readObject f ber off d with
+            | .error e => (.error e : Except Err (List Obj × Nat))
+            | .ok (o, off') =>
+              if P off' then .error .beyondParent
+              else match readItems f ber off' ce ind d with
+                | .error e => .error e
+                | .ok (os, off'') => .ok (o :: os, off'')) ≠ .error .fuel := by
+        intro P _
         cases ho : readObject f ber off d with
         | error e => intro h; injection h with h; subst h; exact hO ho
         | ok r =>
@@ -294,41 +358,26 @@ theorem fuel_all (ber : Bytes) : ∀ f : Nat,
           have hp := (progress_all ber f).1 _ _ _ _ ho
           have hI := ihI e1 ce ind d (by omega)
           dsimp only
-          cases hi : readItems f ber e1 ce ind d with
-          | error e =>
-            have : e ≠ .fuel := by intro h; subst h; exact hI hi
-            cases ind <;> simp only [Bool.false_eq_true, if_true, if_false] <;> repeat' split
-            all_goals simp [this]
-          | ok r =>
-            cases ind <;> simp only [Bool.false_eq_true, if_true, if_false] <;> repeat' split
-            all_goals simp
-
-/-- one iteration of the `readItems` loop with the two recursive calls abstracted -/
-def itemsK (O : Nat → Except Err (Obj × Nat)) (I : Nat → Except Err (List Obj × Nat))
-    (ber : Bytes) (offset contentEnd : Nat) (indefinite : Bool) : Except Err (List Obj × Nat) :=
-  if ¬ (offset < contentEnd ∨ indefinite) then .ok ([], offset)
-  else
-    match O offset with
-    | .error e => .error e
-    | .ok (o, off') =>
-      if indefinite then
-        if ber.length - off' < 2 then .error .invalid
-        else if ber.getD off' 1 = 0 ∧ ber.getD (off' + 1) 1 = 0 then .ok ([o], off')
-        else
-          match I off' with
-          | .error e => .error e
-          | .ok (os, off'') => .ok (o :: os, off'')
-      else if off' > contentEnd then .error .beyondParent
-      else
-        match I off' with
-        | .error e => .error e
-        | .ok (os, off'') => .ok (o :: os, off'')
-
-/-- one unfolding of `readItems` -/
-theorem readItems_succ (f : Nat) (ber : Bytes) (off ce : Nat) (ind : Bool) (d : Nat) :
-    readItems (f + 1) ber off ce ind d
-      = itemsK (fun o => readObject f ber o d) (fun o => readItems f ber o ce ind d) ber off ce ind := by
-  rw [readItems]; rfl
+          split
+          · simp
+          · cases hi : readItems f ber e1 ce ind d with
+            | error e =>
+              intro h; injection h with h; subst h; exact hI hi
+            | ok r => simp
+      cases ind with
+      | true =>
+        simp only [if_true]
+        split
+        · simp
+        · split
+          · simp
+          · have := key (fun _ => False)
+            simpa using this
+      | false =>
+        simp only [Bool.false_eq_true, if_false]
+        split
+        · simp
+        · exact key (fun x => x > ce)
 
 /-- if the recursive calls may only change where they ran out of fuel, the iteration result does not change
     unless it is itself `fuel` -/
@@ -338,49 +387,65 @@ theorem itemsK_mono {O O2 : Nat → Except Err (Obj × Nat)} {I I2 : Nat → Exc
     (h : itemsK O I ber off ce ind ≠ .error .fuel) :
     itemsK O2 I2 ber off ce ind = itemsK O I ber off ce ind := by
   unfold itemsK at *
-  split
-  · rfl
-  · rename_i hn
-    rw [if_neg hn] at h
-    cases ho : O off with
+  have tail : ∀ (e1 : Nat) (o : Obj),
+      (match I e1 with
+        | .error e => (.error e : Except Err (List Obj × Nat))
+        | .ok (os, off'') => .ok (o :: os, off'')) ≠ .error .fuel →
+      (match I2 e1 with
+        | .error e => (.error e : Except Err (List Obj × Nat))
+        | .ok (os, off'') => .ok (o :: os, off'')) =
+      (match I e1 with
+        | .error e => (.error e : Except Err (List Obj × Nat))
+        | .ok (os, off'') => .ok (o :: os, off'')) := by
+    intro e1 o h
+    cases hi : I e1 with
     | error e =>
-      rw [ho] at h
+      rw [hi] at h
       have he : e ≠ Err.fuel := fun hh => h (by rw [hh])
-      rw [hO off (by rw [ho]; intro x; injection x with x; exact he x), ho]
-    | ok r =>
-      obtain ⟨o, e1⟩ := r
-      rw [ho] at h
-      rw [hO off (by rw [ho]; simp), ho]
-      dsimp only at h ⊢
-      cases ind with
-      | true =>
-        simp only [if_true] at h ⊢
+      rw [hI e1 (by rw [hi]; intro x; injection x with x; exact he x), hi]
+    | ok r => rw [hI e1 (by rw [hi]; simp), hi]
+  cases ind with
+  | true =>
+    simp only [if_true] at h ⊢
+    split
+    · rfl
+    · rename_i h1
+      rw [if_neg h1] at h
+      split
+      · rfl
+      · rename_i h2
+        rw [if_neg h2] at h
+        cases ho : O off with
+        | error e =>
+          rw [ho] at h
+          have he : e ≠ Err.fuel := fun hh => h (by rw [hh])
+          rw [hO off (by rw [ho]; intro x; injection x with x; exact he x), ho]
+        | ok r =>
+          obtain ⟨o, e1⟩ := r
+          rw [ho] at h
+          rw [hO off (by rw [ho]; simp), ho]
+          exact tail e1 o h
+  | false =>
+    simp only [Bool.false_eq_true, if_false] at h ⊢
+    split
+    · rfl
+    · rename_i h1
+      rw [if_neg h1] at h
+      cases ho : O off with
+      | error e =>
+        rw [ho] at h
+        have he : e ≠ Err.fuel := fun hh => h (by rw [hh])
+        rw [hO off (by rw [ho]; intro x; injection x with x; exact he x), ho]
+      | ok r =>
+        obtain ⟨o, e1⟩ := r
+        rw [ho] at h
+        rw [hO off (by rw [ho]; simp), ho]
+        dsimp only at h ⊢
         split
         · rfl
-        · rename_i h1
-          rw [if_neg h1] at h
-          split
-          · rfl
-          · rename_i h2
-            rw [if_neg h2] at h
-            cases hi : I e1 with
-            | error e =>
-              rw [hi] at h
-              have he : e ≠ Err.fuel := fun hh => h (by rw [hh])
-              rw [hI e1 (by rw [hi]; intro x; injection x with x; exact he x), hi]
-            | ok r => rw [hI e1 (by rw [hi]; simp), hi]
-      | false =>
-        simp only [Bool.false_eq_true, if_false] at h ⊢
-        split
-        · rfl
-        · rename_i h1
-          rw [if_neg h1] at h
-          cases hi : I e1 with
-          | error e =>
-                rw [hi] at h
-                have he : e ≠ Err.fuel := fun hh => h (by rw [hh])
-                rw [hI e1 (by rw [hi]; intro x; injection x with x; exact he x), hi]
-          | ok r => rw [hI e1 (by rw [hi]; simp), hi]
+        · rename_i h2
+          rw [if_neg h2] at h
+          exact tail e1 o h
 
 /-- one more unit of fuel does not change a result other than `fuel` -/
 theorem mono_all (ber : Bytes) : ∀ f : Nat,
@@ -418,12 +483,15 @@ theorem readObject_progress {fuel : Nat} {ber : Bytes} {off d : Nat} {o : Obj} {
   (progress_all ber fuel).1 off d o off2 h
 
 /-- The item loop `for (offset < contentEnd) || indefinite` never moves backwards.  In the indefinite case it
-    reads at least one child and stops at a position where the two end-of-contents octets are available
-    (`off2 + 2 ≤ len(ber)`).  In the definite case each child is only known to end inside the input, not
-    inside `contentEnd` (as in the Go code), so the loop ends at most at `len(ber)` when started inside it. -/
+    stops — after zero or more children: the end-of-contents test comes before each member — at a position where
+    the two end-of-contents octets are available (`off2 + 2 ≤ len(ber)`).  In the definite case the loop ends at
+    most at `len(ber)` when started inside it (`items_inside_parent` in C18Linear: at most at `contentEnd`).
+    (Before the repair of the empty indefinite-length value the loop read a member first, and this theorem also
+    said `off + 2 ≤ off2` for the indefinite case; that is no longer true — `30 80 00 00` has no member — and not
+    needed: `readObject_progress` still gives `off + 2 ≤ off2` for every object.) -/
 theorem readItems_progress {fuel : Nat} {ber : Bytes} {off ce : Nat} {ind : Bool} {d : Nat} {os : List Obj}
     {off2 : Nat} (h : readItems fuel ber off ce ind d = .ok (os, off2)) :
-    off ≤ off2 ∧ (ind = true → off + 2 ≤ off2 ∧ off2 + 2 ≤ ber.length) ∧
+    off ≤ off2 ∧ (ind = true → off2 + 2 ≤ ber.length) ∧
       (ind = false → off ≤ ber.length → off2 ≤ ber.length) :=
   (progress_all ber fuel).2 off ce ind d os off2 h
 
@@ -558,49 +626,12 @@ theorem depth_all (ber : Bytes) : ∀ f : Nat,
           have := ihI _ _ _ _ _ _ (by omega) hi
           simp only [Obj.depth]; omega
     · intro off ce ind d os e hd h
-      rw [readItems] at h
-      split at h
-      · injection h with h; injection h with h _; subst h
+      rcases readItems_ok_cases h with ⟨hos, _, _, _⟩ | ⟨o, e1, os1, ho, hi, hos, _, _⟩
+      · subst hos; simp only [depthItems]; omega
+      · subst hos
+        have hO := ihO _ _ _ _ hd ho
+        have hI := ihI _ _ _ _ _ _ hd hi
         simp only [depthItems]; omega
-      · cases ho : readObject f ber off d with
-        | error e => rw [ho] at h; simp at h
-        | ok r =>
-          obtain ⟨o, e1⟩ := r
-          rw [ho] at h
-          have hO := ihO _ _ _ _ hd ho
-          dsimp only at h
-          have hcons : ∀ os1 e2, readItems f ber e1 ce ind d = .ok (os1, e2) →
-              depthItems (o :: os1) + d ≤ maxBERDepth := by
-            intro os1 e2 hi
-            have hI := ihI _ _ _ _ _ _ hd hi
-            simp only [depthItems]; omega
-          have hsingle : depthItems [o] + d ≤ maxBERDepth := by
-            simp only [depthItems]; omega
-          cases ind with
-          | true =>
-            simp only [if_true] at h
-            split at h
-            · simp at h
-            · split at h
-              · injection h with h; injection h with h _; subst h; exact hsingle
-              · cases hi : readItems f ber e1 ce true d with
-                | error e => rw [hi] at h; simp at h
-                | ok r =>
-                  obtain ⟨os1, e2⟩ := r
-                  rw [hi] at h
-                  injection h with h; injection h with h _; subst h
-                  exact hcons _ _ hi
-          | false =>
-            simp only [Bool.false_eq_true, if_false] at h
-            split at h
-            · simp at h
-            · cases hi : readItems f ber e1 ce false d with
-              | error e => rw [hi] at h; simp at h
-              | ok r =>
-                obtain ⟨os1, e2⟩ := r
-                rw [hi] at h
-                injection h with h; injection h with h _; subst h
-                exact hcons _ _ hi
 
 /-- The nesting bound of the repaired code: an object that `readObjectDepth` accepts at depth `d` has at most
     `maxBERDepth - d` levels of constructed encodings below (and including) it.  A constructed object is
